@@ -1165,12 +1165,12 @@ Qed.
 Definition held_above (t : tree) (held : list nat) (p : nat) : Prop :=
   forall h, In h held -> exists k, anc (par t) (S k) p = Some h.
 
-Lemma mem_down_terminates t d name :
+Lemma mem_down_terminates hold t d name :
   Shape t ->
   forall fuel p held k r0,
     anc (par t) k p = Some r0 -> length (heap t) <= fuel + k -> p < length (heap t) ->
     held_above t held p ->
-    exists r, mem_down fuel t d name held p = Ok r.
+    exists r, mem_down hold fuel t d name held p = Ok r.
 Proof.
   intros Sh. pose proof (Term_Acyc _ (shTerm _ Sh)) as HA.
   induction fuel as [|f IH]; intros p held k r0 Hk Hlen Hp Hh.
@@ -1180,26 +1180,28 @@ Proof.
       destruct (Hh p Hh1) as [j Hj]. exact (HA p j Hj). }
     destruct (d (key_of t p)) as [ms|]; [|eauto].
     destruct (memb name ms); [eauto|].
-    destruct (fold_out_ok (mem_down f t d name (p :: held)) (kids_of t p)) as [rs [Hrs _]]; [|eauto].
+    destruct (fold_out_ok (mem_down hold f t d name (if hold then p :: held else held)) (kids_of t p)) as [rs [Hrs _]]; [|eauto].
     intros c Hc. apply (shInv _ Sh) in Hc.
-    apply (IH c (p :: held) (S k) r0).
+    apply (IH c (if hold then p :: held else held) (S k) r0).
     + simpl. unfold par at 1. rewrite Hc. exact Hk.
     + lia.
     + apply (shBound _ Sh c p Hc).
-    + intros h [<-|Hin].
-      * exists 0. simpl. unfold par. rewrite Hc. reflexivity.
-      * destruct (Hh h Hin) as [j Hj]. exists (S j).
+    + assert (Hup : forall h, In h held -> exists j, anc (par t) (S j) c = Some h).
+      { intros h Hin. destruct (Hh h Hin) as [j Hj]. exists (S j).
         change (anc (par t) (S (S j)) c) with (match par t c with Some x => anc (par t) (S j) x | None => None end).
-        unfold par at 1. rewrite Hc. exact Hj.
+        unfold par at 1. rewrite Hc. exact Hj. }
+      destruct hold; [|exact Hup].
+      intros h [<-|Hin]; [|apply Hup; exact Hin].
+      exists 0. simpl. unfold par. rewrite Hc. reflexivity.
 Qed.
 
-Lemma member_subtypes_terminates t d c name :
-  Shape t -> exists r, member_subtypes t d c name = Ok r.
+Lemma member_subtypes_g_terminates hold t d c name :
+  Shape t -> exists r, member_subtypes_g hold t d c name = Ok r.
 Proof.
-  intro Sh. unfold member_subtypes. destruct (lookup t (upper c)) as [e|]; [|eauto].
-  destruct (fold_out_ok (mem_down (S (length (heap t))) t d (upper name) []) (kids_of t e)) as [rs [Hrs _]]; [|eauto].
+  intro Sh. unfold member_subtypes_g. destruct (lookup t (upper c)) as [e|]; [|eauto].
+  destruct (fold_out_ok (mem_down hold (S (length (heap t))) t d (upper name) []) (kids_of t e)) as [rs [Hrs _]]; [|eauto].
   intros x Hx. apply (shInv _ Sh) in Hx.
-  apply (mem_down_terminates t d (upper name) Sh _ x [] 1 e).
+  apply (mem_down_terminates hold t d (upper name) Sh _ x [] 1 e).
   - simpl. unfold par. rewrite Hx. reflexivity.
   - lia.
   - apply (shBound _ Sh x e Hx).
@@ -1209,6 +1211,10 @@ Qed.
 (* ------------------------------------------------------------------------------------------ *)
 (* Part 8: the member walkers against the declarative specification                             *)
 (* ------------------------------------------------------------------------------------------ *)
+Lemma member_subtypes_terminates t d c name :
+  Shape t -> exists r, member_subtypes t d c name = Ok r.
+Proof. apply member_subtypes_g_terminates. Qed.
+
 Lemma fold_out_inv {A} (g : nat -> out (list A)) l rs :
   fold_right (fun c acc => out_app (g c) acc) (Ok []) l = Ok rs ->
   (forall c, In c l -> exists r, g c = Ok r) /\
@@ -1292,7 +1298,7 @@ Section Members.
   Qed.
 
   Lemma mem_down_spec fuel : forall p held r,
-    p < length (heap t) -> parent_of t p <> None -> mem_down fuel t d name held p = Ok r ->
+    p < length (heap t) -> parent_of t p <> None -> mem_down false fuel t d name held p = Ok r ->
     forall kx, In kx (map (key_of t) r) <-> front0 (key_of t p) kx.
   Proof.
     induction fuel as [|f IH]; intros p held r Hp Hpar H kx; [discriminate|]. simpl in H.
@@ -1311,14 +1317,14 @@ Section Members.
         assert (Hc : parent_of t c = Some p) by (apply (sInv _ _ S); exact Hc1).
         assert (Hcl : c < length (heap t)) by (apply (sBound _ _ S c p Hc)).
         apply f0_down with (key_of t c); [exact Hnd | apply R_ptr; [exact Hcl | rewrite Hc; reflexivity]|].
-        apply (IH c (p :: held) rc Hcl ltac:(congruence) Hc2). apply in_map_iff. exists x. auto.
+        apply (IH c held rc Hcl ltac:(congruence) Hc2). apply in_map_iff. exists x. auto.
       + intro F. inversion F; subst; [contradiction|].
         apply (sKids _ _ S) in H1. unfold kchildren in H1. rewrite (sNodes _ _ S p Hp) in H1.
         apply in_map_iff in H1 as [c' [Hc1 Hc2]]. subst c.
         assert (Hc : parent_of t c' = Some p) by (apply (sInv _ _ S); exact Hc2).
         assert (Hcl : c' < length (heap t)) by (apply (sBound _ _ S c' p Hc)).
         destruct (fold_out_inv _ _ _ H) as [Hall _]. destruct (Hall c' Hc2) as [rc Hrc].
-        apply (IH c' (p :: held) rc Hcl ltac:(congruence) Hrc) in H2.
+        apply (IH c' held rc Hcl ltac:(congruence) Hrc) in H2.
         apply in_map_iff in H2 as [x [Hx1 Hx2]]. exists x. split; [exact Hx1|].
         apply Hin. exists c', rc. auto.
   Qed.
@@ -1351,7 +1357,7 @@ Section Members.
       forall kx, In kx (map (key_of t) r) <-> frontier (upper c) kx.
   Proof.
     intro Hn. destruct (member_subtypes_terminates t d c nm (Shape_of_spec _ _ S)) as [r Hr].
-    exists r. split; [exact Hr|]. unfold member_subtypes in Hr. rewrite <- Hn in Hr. intro kx.
+    exists r. split; [exact Hr|]. unfold member_subtypes, member_subtypes_g in Hr. rewrite <- Hn in Hr. intro kx.
     destruct (lookup t (upper c)) as [e|] eqn:Ee.
     - destruct (sMap _ _ S _ _ Ee) as [He Hk]. rewrite <- Hk.
       destruct (fold_out_inv _ _ _ Hr) as [Hall Hin]. rewrite in_map_iff. split.
